@@ -37,12 +37,15 @@ RULE = ("random in-memory repositories (SimpleTree over 1-4 categories x 0-4 pac
         "leaf, Negate, or atom; leaves = category / package PackageRestriction, CategoryDep, PackageDep with negation on the wrapper and/or the "
         "value, value = exact (case-sensitive or not), glob, regex, containment, value-level boolean tree; other leaves = fullver / VersionMatch / "
         "slot / USE / AlwaysBool / Conditional; atoms.  Each query is run versioned and unversioned with sorter iter / sorted / reverse-sorted and "
-        "compared with the brute-force filter.  non-trivial = the restriction mentions category or package and the answer is neither empty nor "
+        "compared with the brute-force filter.  Query histories: long-lived SimpleTree / multiplex.tree / filtered.tree objects answer the same batch "
+        "of queries (incl. atoms for the packages touched) again and again while packages, revisions and whole categories are added "
+        "(notify_add_package), removed (notify_remove_package) and repositories are stacked on (+); each answer is compared with a brute-force "
+        "filter of the contents at that moment.  non-trivial = the restriction mentions category or package and the answer is neither empty nor "
         "the whole repository")
 
 CATS = ["app", "dev", "App", "a", "b", "app-x", "dev-x"]
 PKGS = ["foo", "bar", "baz", "Foo", "f", "x", "foobar"]
-VERS = ["1", "2", "1.0-r1", "3", "0.9"]
+VERS = ["1", "1-r1", "1-r2", "2", "1.0", "1.0-r1", "3", "0.9"]     # several revisions of one version
 
 
 def gen_repo(rng, small=False):
@@ -83,12 +86,72 @@ def gen_leaf(rng):
         return {"l": k, "s": rng.choice(CATS if k == "catdep" else PKGS), "n": rng.random() < 0.25}
     if k == "other":
         return {"l": "other", "o": rng.choice(["fullver1", "fullverglob", "vm>=2", "vm<2neg", "vm~1.0", "slot0", "usex", "usey", "true", "false",
+                                                "vm=1-r1", "vm>=1-r2", "vm=1", "fullver1r1", "vm<=1.0-r0",
                                                 "nonexistent", "nonexistentneg"])}
     if k == "cond":
         return {"l": "cond", "attr": rng.choice(["category", "package", "use"]), "s": rng.choice(CATS + PKGS + ["x"]), "n": rng.random() < 0.3}
     c, p = rng.choice(CATS), rng.choice(PKGS)
-    return {"l": "atom", "s": rng.choice(["{c}/{p}", ">={c}/{p}-2", "<{c}/{p}-2", "={c}/{p}-1*", "~{c}/{p}-1.0", "{c}/{p}:0", "{c}/{p}[x]",
-                                          "!{c}/{p}"]).format(c=c, p=p)}
+    return {"l": "atom", "s": rng.choice(ATOM_FORMS).format(c=c, p=p)}
+
+
+ATOM_FORMS = ["{c}/{p}", ">={c}/{p}-2", "<{c}/{p}-2", "={c}/{p}-1*", "~{c}/{p}-1.0", "{c}/{p}:0", "{c}/{p}[x]", "!{c}/{p}", "={c}/{p}-1-r1",
+              ">={c}/{p}-1-r2", "={c}/{p}-1", "<{c}/{p}-1-r2", "~{c}/{p}-1", "={c}/{p}-1.0-r1"]
+
+
+def atom_query(rng, c=None, p=None):
+    c, p = c or rng.choice(CATS), p or rng.choice(PKGS)
+    return {"tree": {"t": "leaf", "k": 0}, "leaves": [{"l": "atom", "s": rng.choice(ATOM_FORMS).format(c=c, p=p)}]}
+
+
+def gen_history(rng):
+    """a long-lived stack of mutable repositories, a filter, a batch of queries, and what happens between the batches"""
+    repos = [gen_repo(rng, small=True) for _ in range(rng.choice([1, 2, 2, 3]))]
+    sim = [{c: {p: list(vs) for p, vs in ps.items()} for c, ps in d.items()} for d in repos]
+    ops, touched = [], []
+    for _ in range(rng.choice([2, 3, 4, 5])):
+        r = rng.random()
+        i = rng.randrange(len(sim))
+        if r < 0.5:
+            if rng.random() < 0.5 and sim[i]:
+                # a new version / revision of something present
+                c = rng.choice(sorted(sim[i]))
+                p = rng.choice(sorted(sim[i][c]) or PKGS)
+            else:
+                c, p = rng.choice(CATS + ["newcat"]), rng.choice(PKGS + ["newpkg"])
+            free = [v for v in VERS if v not in sim[i].get(c, {}).get(p, [])]
+            if not free:
+                continue
+            v = rng.choice(free)
+            sim[i].setdefault(c, {}).setdefault(p, []).append(v)
+            ops.append({"op": "add", "repo": i, "cpv": [c, p, v]})
+            touched.append((c, p))
+        elif r < 0.72:
+            have = [(c, p, v) for c, ps in sim[i].items() for p, vs in ps.items() for v in vs]
+            if not have:
+                continue
+            c, p, v = rng.choice(sorted(have))
+            sim[i][c][p].remove(v)
+            if not sim[i][c][p]:
+                del sim[i][c][p]
+                if not sim[i][c]:
+                    del sim[i][c]
+            ops.append({"op": "remove", "repo": i, "cpv": [c, p, v]})
+            touched.append((c, p))
+        elif r < 0.86:
+            d = gen_repo(rng, small=True)
+            sim.append({c: {p: list(vs) for p, vs in ps.items()} for c, ps in d.items()})
+            ops.append({"op": "stack", "contents": d})
+            touched += [(c, p) for c, ps in d.items() for p in ps][:2]
+        else:
+            ops.append({"op": "requery"})
+    queries = [gen_query(rng), {"tree": {"t": "leaf", "k": 0}, "leaves": [{"l": "other", "o": "true"}]}]
+    for c, p in touched[:3]:
+        queries.append(atom_query(rng, c, p))
+    queries.append(atom_query(rng))
+    mask = None
+    if rng.random() < 0.7:
+        mask = atom_query(rng, *(rng.choice(touched) if touched and rng.random() < 0.5 else (None, None))) if rng.random() < 0.5 else gen_query(rng)
+    return {"repos": repos, "ops": ops, "queries": queries, "mask": mask}
 
 
 def gen_query(rng):
@@ -178,7 +241,7 @@ def run(ctx):
     from pkgcore.restrictions import boolean, packages, values, restriction
     from pkgcore.ebuild import restricts
     from pkgcore.ebuild.atom import atom
-    from pkgcore.ebuild.cpv import UnversionedCPV
+    from pkgcore.ebuild.cpv import Revision, UnversionedCPV, VersionedCPV
     from pkgcore.repository.util import SimpleTree
     from pkgcore.repository import multiplex, filtered
     from pkgcore.test.misc import FakePkg
@@ -205,6 +268,11 @@ def run(ctx):
         "vm>=2": lambda: restricts.VersionMatch(">=", "2"),
         "vm<2neg": lambda: restricts.VersionMatch("<", "2", negate=True),
         "vm~1.0": lambda: restricts.VersionMatch("~", "1.0"),
+        "vm=1-r1": lambda: restricts.VersionMatch("=", "1", Revision("1")),
+        "vm>=1-r2": lambda: restricts.VersionMatch(">=", "1", Revision("2")),
+        "vm=1": lambda: restricts.VersionMatch("=", "1", Revision("")),
+        "vm<=1.0-r0": lambda: restricts.VersionMatch("<=", "1.0", Revision("0")),
+        "fullver1r1": lambda: P("fullver", V.StrExactMatch("1-r1")),
         "slot0": lambda: restricts.SlotDep("0"),
         "usex": lambda: P("use", V.ContainmentMatch("x")),
         "usey": lambda: P("use", V.ContainmentMatch("y")),
@@ -380,6 +448,103 @@ def run(ctx):
                                  "tbl": cn.tbl, "vtab": vtab, "ptab": ptab, "tree": tree_model, "sorter": sname, "versioned": versioned})
         pend.append((case, rec, reqs, tree_model, cn.tbl))
 
+    PKCACHE = {}
+
+    def build_query(q):
+        leaves = [mkleaf(l) for l in q["leaves"]] or [packages.AlwaysTrue]
+        return build(q["tree"], leaves)
+
+    def stage_history(h, tag):
+        """query histories on long-lived repository objects: the same tree / multiplex / filtered objects answer batch after batch
+        while packages come and go; every answer is compared with a brute-force filter of the contents at that moment"""
+        case = {"history": h, "mode": tag}
+        try:
+            qs = [build_query(q) for q in h["queries"]]
+            mask_r = build_query(h["mask"]) if h["mask"] is not None else None
+        except Exception as e:
+            ctx.note(f"construction raised {type(e).__name__}: {str(e)[:80]} (case skipped)")
+            ctx.count("construction_failed")
+            return
+        def pk(c, p, v):
+            k = (c, p, v)
+            if k not in PKCACHE:
+                PKCACHE[k] = FakePkg.for_tree_usage(c, p, v, slot="0", use=("x",))
+            return PKCACHE[k]
+
+        live = [{c: {p: list(vs) for p, vs in ps.items()} for c, ps in d.items()} for d in h["repos"]]
+        trees = [SimpleTree(d, pkg_klass=pk, frozen=False) for d in live]
+        mux = multiplex.tree(*trees)
+        filt = {s: filtered.tree(trees[0], mask_r, sentinel_val=s) for s in (False, True)} if mask_r is not None else {}
+        nviol = [0]
+
+        def bad(step, what, got, want):
+            nviol[0] += 1
+            if nviol[0] <= 3:
+                ctx.violation(dict(case, failing_step=step), f"after {step}: {what} yields {counted(got)}; a brute-force filter of the current contents "
+                                                             f"({[{c: dict(ps) for c, ps in d.items()} for d in live]}) gives {counted(want)}")
+
+        def batch(step):
+            contents = [[pk(c, p, v) for c, ps in d.items() for p, vs in ps.items() for v in vs] for d in live]
+            for qi, r in enumerate(qs):
+                per_tree = []
+                for i, (t, d) in enumerate(zip(trees, live)):
+                    pkgs = contents[i]
+                    want = [key(x) for x in pkgs if r.match(x)]
+                    per_tree.append((pkgs, want))
+                    try:
+                        got = [key(x) for x in t.itermatch(r)]
+                    except Exception as e:
+                        ctx.violation(dict(case, failing_step=step), f"after {step}: itermatch on repository #{i} raised {type(e).__name__}: {e}")
+                        return
+                    ctx.count("history_tree_queries")
+                    if counted(got) != counted(want):
+                        bad(step, f"query #{qi} on repository #{i}", got, want)
+                union = [k for _, want in per_tree for k in want]
+                for sname in ("iter", "sorted"):
+                    kw = {"sorter": sorted} if sname == "sorted" else {}
+                    try:
+                        res = list(mux.itermatch(r, **kw))
+                    except Exception as e:
+                        ctx.violation(dict(case, failing_step=step), f"after {step}: multiplex.itermatch raised {type(e).__name__}: {e}")
+                        return
+                    ctx.count("history_multiplex_queries")
+                    if counted(key(x) for x in res) != counted(union):
+                        bad(step, f"query #{qi} on the stack of {len(trees)} repositories (sorter={sname})", [key(x) for x in res], union)
+                    if sname == "sorted" and res != sorted(res):
+                        ctx.violation(dict(case, failing_step=step), f"after {step}: multiplex.itermatch(sorter=sorted) is not sorted")
+                for sentinel, f in filt.items():
+                    pkgs, want0 = per_tree[0]
+                    want = [key(x) for x in pkgs if r.match(x) and bool(mask_r.match(x)) == sentinel]
+                    try:
+                        got = [key(x) for x in f.itermatch(r)]
+                    except Exception as e:
+                        ctx.violation(dict(case, failing_step=step), f"after {step}: filtered.itermatch raised {type(e).__name__}: {e}")
+                        return
+                    ctx.count("history_filtered_queries")
+                    if counted(got) != counted(want):
+                        bad(step, f"query #{qi} on the filtered repository (sentinel_val={sentinel})", got, want)
+
+        batch("construction")
+        for n, op in enumerate(h["ops"]):
+            step = f"step {n + 1} ({op['op']}{' ' + '/'.join(op['cpv'][:2]) + '-' + op['cpv'][2] if 'cpv' in op else ''})"
+            try:
+                if op["op"] == "add":
+                    trees[op["repo"]].notify_add_package(VersionedCPV("%s/%s-%s" % tuple(op["cpv"])))
+                elif op["op"] == "remove":
+                    trees[op["repo"]].notify_remove_package(VersionedCPV("%s/%s-%s" % tuple(op["cpv"])))
+                elif op["op"] == "stack":
+                    d = {c: {p: list(vs) for p, vs in ps.items()} for c, ps in op["contents"].items()}
+                    live.append(d)
+                    trees.append(SimpleTree(d, pkg_klass=pk, frozen=False))
+                    mux = mux + trees[-1]
+            except Exception as e:
+                ctx.violation(dict(case, failing_step=step), f"{step} raised {type(e).__name__}: {e}")
+                return
+            ctx.count("history_op_" + op["op"])
+            batch(step)
+        ctx.case(case, len(h["ops"]) >= 2 and any(o["op"] in ("add", "remove", "stack") for o in h["ops"]),
+                 key=json.dumps(h, sort_keys=True))
+
     def flush():
         allreqs = [q for _, _, reqs, _, _ in pend for q in reqs]
         reps = ctx.model(allreqs)
@@ -443,11 +608,15 @@ def run(ctx):
         for c in ctx.replay_cases:
             if "query" in c and "repos" in c:
                 stage(c["query"], c["repos"], c.get("mask"), "replay")
+    if ctx.replay_cases:
+        for c in ctx.replay_cases:
+            if "history" in c:
+                stage_history(c["history"], "replay")
     for q in CORPUS:
         stage(q, [CORPUS_REPO], None, "corpus")
         stage(q, [CORPUS_REPO, {"app": {"foo": ["2", "3"]}, "z": {"q": ["1"]}}], CORPUS[1], "corpus")
     flush()
-    n = ctx.n(3600, 40000)
+    n = ctx.n(2000, 20000)
     for i in range(n):
         q = gen_query(rng)
         nrep = rng.choice([1, 1, 1, 2, 3])
@@ -456,7 +625,9 @@ def run(ctx):
             repos[0] = gen_repo(rng)
         mask = gen_query(rng) if rng.random() < 0.3 else None
         stage(q, repos, mask, "random")
-        if len(pend) >= 150:
+        if i % 8 == 0:
+            stage_history(gen_history(rng), "history")
+        if len(pend) >= 1500:      # each driver start costs ~1 s: batch
             flush()
     flush()
     if not ctx.quick():
